@@ -7,3 +7,124 @@ Local Open Scope N_scope.
 (** The registry used by the harness satisfies the registry hypothesis of the theorems. *)
 Lemma harness_registry_wf : reg_wf_b harness_registry = true.
 Proof. vm_compute. reflexivity. Qed.
+
+(** * Slices *)
+Lemma slice_prefix (b : list N) (k : nat) s :
+  (k <= List.length b)%nat -> slice_bytes b 0%Z (Z.of_nat k) s = Ok (firstn k b).
+Proof.
+  intros H. unfold slice_bytes.
+  destruct ((0 <? 0)%Z || (Z.of_nat k <? 0)%Z || (Z.of_nat (List.length b) <? Z.of_nat k)%Z) eqn:E.
+  - exfalso. rewrite !orb_true_iff in E. rewrite !Z.ltb_lt in E. lia.
+  - cbn [Z.to_nat]. rewrite Nat2Z.id. rewrite Nat.sub_0_r. reflexivity.
+Qed.
+
+Lemma slice_suffix (b : list N) (k : nat) s :
+  (k <= List.length b)%nat -> slice_bytes b (Z.of_nat k) (Z.of_nat (List.length b)) s = Ok (skipn k b).
+Proof.
+  intros H. unfold slice_bytes.
+  destruct ((Z.of_nat k <? 0)%Z || (Z.of_nat (List.length b) <? Z.of_nat k)%Z ||
+            (Z.of_nat (List.length b) <? Z.of_nat (List.length b))%Z) eqn:E.
+  - exfalso. rewrite !orb_true_iff in E. rewrite !Z.ltb_lt in E. lia.
+  - rewrite !Nat2Z.id. f_equal. apply firstn_all2. rewrite skipn_length. lia.
+Qed.
+
+(** * The generated Registry.Unmarshal against a closed-form specification.
+      This is the lemma that breaks when registry.go's guard or slice bounds change. *)
+Definition registry_unmarshal_spec {K} (bp : list N -> option (list N -> res (option K))) (b : list N)
+  : res (option K) :=
+  if (List.length b <? prefix_size)%nat then Ok None
+  else match bp (trim_right_zeros (firstn prefix_size b)) with
+       | None => Ok None
+       | Some f => f (skipn prefix_size b)
+       end.
+
+Lemma registry_unmarshal_correct {K} bp (b : list N) :
+  @registry_unmarshal K bp b = registry_unmarshal_spec bp b.
+Proof.
+  unfold registry_unmarshal, registry_unmarshal_spec, prefix_size.
+  destruct (Z.of_nat (List.length b) <? 8)%Z eqn:E.
+  - apply Z.ltb_lt in E. destruct (List.length b <? 8)%nat eqn:E2; [reflexivity|].
+    apply Nat.ltb_ge in E2. lia.
+  - apply Z.ltb_ge in E. destruct (List.length b <? 8)%nat eqn:E2.
+    { apply Nat.ltb_lt in E2. lia. }
+    apply Nat.ltb_ge in E2.
+    change 8%Z with (Z.of_nat 8).
+    rewrite (slice_prefix b 8) by exact E2. cbn [bind].
+    destruct (bp (trim_right_zeros (firstn 8 b))) as [f|]; [|reflexivity].
+    rewrite (slice_suffix b 8) by exact E2. reflexivity.
+Qed.
+
+(** * Totality: no conversion from an intermediate struct panics *)
+Lemma apply_ctor_ok c b : is_ok (apply_ctor c b) = true.
+Proof. destruct c; cbn; [reflexivity|]. destruct (N.eqb _ _); reflexivity. Qed.
+
+Lemma reg_unmarshal_total r b : is_ok (reg_unmarshal r b) = true.
+Proof.
+  unfold reg_unmarshal. rewrite registry_unmarshal_correct. unfold registry_unmarshal_spec.
+  destruct (_ <? _)%nat; [reflexivity|].
+  destruct (alist_find _ (by_prefix r)) as [c|]; cbn; [apply apply_ctor_ok|reflexivity].
+Qed.
+
+Lemma bindE_ok {A B} (x : res (option A)) (f : A -> res (option B)) :
+  is_ok x = true -> (forall a, is_ok (f a) = true) -> is_ok (bindE x f) = true.
+Proof. intros Hx Hf. destruct x as [[a|]|s]; cbn in *; auto; discriminate. Qed.
+
+Lemma to_validator_total r jv : is_ok (to_validator r jv) = true.
+Proof. unfold to_validator. apply bindE_ok; [apply reg_unmarshal_total|reflexivity]. Qed.
+
+Lemma to_validators_total r jvs : is_ok (to_validators r jvs) = true.
+Proof.
+  induction jvs as [|jv jvs IH]; cbn [to_validators]; [reflexivity|].
+  apply bindE_ok; [apply to_validator_total|]. intros v.
+  apply bindE_ok; [exact IH|reflexivity].
+Qed.
+
+Lemma to_valset_total r j : is_ok (to_valset r j) = true.
+Proof. unfold to_valset. apply bindE_ok; [apply to_validators_total|reflexivity]. Qed.
+
+Lemma to_header_total r j : is_ok (to_header r j) = true.
+Proof.
+  unfold to_header. apply bindE_ok; [apply to_valset_total|]. intros vs.
+  apply bindE_ok; [apply to_valset_total|reflexivity].
+Qed.
+
+Lemma to_proposed_total r j : is_ok (to_proposed r j) = true.
+Proof.
+  unfold to_proposed. apply bindE_ok; [apply to_header_total|]. intros h.
+  apply bindE_ok; [|reflexivity].
+  destruct (jph_pub j) as [b|]; [|reflexivity].
+  apply bindE_ok; [apply reg_unmarshal_total|reflexivity].
+Qed.
+
+Lemma to_committed_total r j : is_ok (to_committed r j) = true.
+Proof. unfold to_committed. apply bindE_ok; [apply to_header_total|reflexivity]. Qed.
+
+Lemma to_cmsg_total r j : is_ok (to_cmsg r j) = true.
+Proof.
+  unfold to_cmsg.
+  destruct (jcm_ph j) as [| |jp]; destruct (jcm_pv j) as [| |p1]; destruct (jcm_pc j) as [| |p2];
+    try reflexivity; (apply bindE_ok; [apply to_proposed_total|reflexivity]).
+Qed.
+
+(** decode_struct_total: for every registry and every value of every intermediate struct the
+    conversion returns a value or an error - never a panic.  (Sparse proofs: [to_sparse] is a
+    plain function, it cannot even return an error.) *)
+Lemma decode_struct_total r :
+  (forall j, c14_nopanic_mon (to_header r j) = true) /\
+  (forall j, c14_nopanic_mon (to_proposed r j) = true) /\
+  (forall j, c14_nopanic_mon (to_committed r j) = true) /\
+  (forall j, c14_nopanic_mon (to_cmsg r j) = true) /\
+  (forall b, c14_nopanic_mon (reg_unmarshal r b) = true).
+Proof.
+  unfold c14_nopanic_mon. repeat split; intros.
+  - apply to_header_total. - apply to_proposed_total. - apply to_committed_total.
+  - apply to_cmsg_total. - apply reg_unmarshal_total.
+Qed.
+
+(** A short key is an error (the fixed defect: it used to be a slice-bounds panic). *)
+Lemma short_key_is_error r b :
+  (List.length (gb2s b) < prefix_size)%nat -> reg_unmarshal r b = Ok None.
+Proof.
+  intros H. unfold reg_unmarshal. rewrite registry_unmarshal_correct. unfold registry_unmarshal_spec.
+  apply Nat.ltb_lt in H. rewrite H. reflexivity.
+Qed.
